@@ -1,6 +1,7 @@
 package main
 
 import (
+	"errors"
 	"context"
 	"fmt"
 	"math/big"
@@ -41,7 +42,7 @@ func (c *concComp) Exec(t []string) (extra []string, out string, eff bool) {
 	case "pool":
 		return c.poolRun(atoi("clients"), atoi("hosts"), int64(atoi("seed")))
 	case "withdraw":
-		return c.withdraws(atoi("workers"), int64(atoi("credit")), int64(atoi("fee")))
+		return c.withdraws(atoi("workers"), int64(atoi("credit")), int64(atoi("fee")), atoi("failfirst"), atoi("stagger"), int64(atoi("seed")), atoi("rounds"))
 	case "samenode":
 		return c.sameNode(atoi("minutes"))
 	case "freshcredit":
@@ -267,7 +268,27 @@ func (c *concComp) poolRun(clients, hosts int, seed int64) ([]string, string, bo
 
 // withdraws: `workers` concurrent withdrawals of one wallet holding `credit`; the minimum is 1 so that an emptied wallet
 // refuses further withdrawals.
-func (c *concComp) withdraws(workers int, credit, fee int64) ([]string, string, bool) {
+func (c *concComp) withdraws(workers int, credit, fee int64, failFirst int, staggerUs int, seed int64, rounds int) ([]string, string, bool) {
+	if rounds < 1 {
+		rounds = 1
+	}
+	var refusedL []string
+	succ, maxIn := int64(0), int64(0)
+	paidT, leftT := new(big.Int), new(big.Int)
+	for k := 0; k < rounds; k++ {
+		ok, refused, paid, left, mi := c.withdrawRound(workers, credit, fee, failFirst, staggerUs, seed+int64(k)*7919)
+		refusedL = append(refusedL, strconv.FormatInt(refused, 10))
+		succ += ok
+		paidT.Add(paidT, paid)
+		leftT.Add(leftT, left)
+		if mi > maxIn {
+			maxIn = mi
+		}
+	}
+	return []string{"refused=" + strings.Join(refusedL, ",")}, fmt.Sprintf("ok successes=%d paid=%s left=%s maxinflight=%d", succ, paidT.String(), leftT.String(), maxIn), true
+}
+
+func (c *concComp) withdrawRound(workers int, credit, fee int64, failFirst int, staggerUs int, seed int64) (int64, int64, *big.Int, *big.Int, int64) {
 	st := openStore(c.driver)
 	defer st.Close()
 	w := walletIdents[0]
@@ -275,59 +296,95 @@ func (c *concComp) withdraws(workers int, credit, fee int64) ([]string, string, 
 	var mu sync.Mutex
 	paid := new(big.Int)
 	calls := 0
+	var inflight, maxInflight int64
 	pay := &payment.PaymentService{NonceStore: st, AccountStore: st, BalanceStore: st, WithdrawMin: big.NewInt(1),
 		WithdrawFee: func(a *big.Int) *big.Int { return a.Sub(a, big.NewInt(fee)) },
 		Settle: func(account store.Account, amount *big.Int, newBalance *big.Int) (string, error) {
+			// settlements of one wallet must never overlap: count how many are in flight (the handler itself does
+			// not serialise them)
+			n := atomic.AddInt64(&inflight, 1)
+			defer atomic.AddInt64(&inflight, -1)
+			for {
+				m := atomic.LoadInt64(&maxInflight)
+				if n <= m || atomic.CompareAndSwapInt64(&maxInflight, m, n) {
+					break
+				}
+			}
 			mu.Lock()
-			defer mu.Unlock()
 			calls++
+			k := calls
+			mu.Unlock()
+			time.Sleep(3 * time.Millisecond) // a slow settlement widens the window
+			if k <= failFirst {
+				return "", errors.New("settlement failed")
+			}
+			mu.Lock()
 			paid.Add(paid, amount)
-			time.Sleep(2 * time.Millisecond) // a slow settlement widens the window
+			mu.Unlock()
 			return "tx", nil
 		}}
 	nonce := time.Now().UnixNano()
-	var ok int64
+	r := rand.New(rand.NewSource(seed))
+	var ok, refused int64
 	var wg sync.WaitGroup
 	start := make(chan struct{})
+	// arrival times in nonce order (a request overtaken by a later nonce is refused at authentication and never
+	// reaches the withdrawal proper)
+	delays := make([]int, workers)
+	for i := range delays {
+		if staggerUs > 0 {
+			delays[i] = r.Intn(staggerUs)
+		}
+	}
+	sort.Ints(delays)
 	for i := 0; i < workers; i++ {
 		n := nonce + int64(i)*1000
+		// arrivals are spread over a few settlement durations, so that some requests arrive while an earlier one
+		// is settling, some while others are already queued, and some after a settlement has just finished
+		delay := time.Duration(delays[i]) * time.Microsecond
+		sig, _ := request.Sign(w.key, "pool_withdraw", w.id, n)
 		wg.Add(1)
 		go func() {
 			defer wg.Done()
 			<-start
-			sig, _ := request.Sign(w.key, "pool_withdraw", w.id, n)
-			if err := pay.Withdraw(context.Background(), sig, w.id, n); err == nil {
+			time.Sleep(delay)
+			err := pay.Withdraw(context.Background(), sig, w.id, n)
+			if err == nil {
 				atomic.AddInt64(&ok, 1)
+			} else if _, isVerify := err.(pool.VerifyFailedError); isVerify {
+				// overtaken by a request with a later nonce: refused before it reaches the withdrawal proper
+				atomic.AddInt64(&refused, 1)
 			}
 		}()
 	}
 	close(start)
 	wg.Wait()
 	b, _ := st.GetAccountBalance(store.Account(w.id))
-	return nil, fmt.Sprintf("ok successes=%d settlements=%d paid=%s left=%s", ok, calls, paid.String(), b.Credit.String()), true
+	return ok, refused, paid, new(big.Int).Set(&b.Credit), maxInflight
 }
 
-func (c *concComp) Gen(r *rand.Rand, idx int, emit func(string)) {
-	if idx%8 == 7 {
-		emit(fmt.Sprintf("samenode minutes=%d", 1+r.Intn(9)))
-		return
-	}
-	if idx%8 == 3 {
-		emit(fmt.Sprintf("freshcredit rounds=%d seed=%d", 400+r.Intn(400), r.Intn(1000)))
-		return
-	}
-	switch idx % 4 {
-	case 0:
+func (c *concComp) Gen(r *rand.Rand, idx int, emit func(string)) { c.gen(r, idx, emit, true) }
+
+func (c *concComp) gen(r *rand.Rand, idx int, emit func(string), sameNode bool) {
+	switch idx % 10 {
+	case 0, 5:
 		emit(fmt.Sprintf("balances workers=%d each=%d seed=%d", 2+r.Intn(7), 20+r.Intn(60), r.Intn(1000)))
-	case 1:
+	case 1, 6:
 		emit(fmt.Sprintf("nonces workers=%d rounds=%d", 2+r.Intn(7), 20+r.Intn(30)))
-	case 2:
+	case 2, 8:
 		emit(fmt.Sprintf("pool clients=%d hosts=%d seed=%d", 1+r.Intn(4), 1+r.Intn(4), r.Intn(1000)))
-	default:
-		emit(fmt.Sprintf("withdraw workers=%d credit=%d fee=%d", 2+r.Intn(6), 1000+r.Intn(9000), r.Intn(200)))
+	case 4:
+		emit(fmt.Sprintf("freshcredit rounds=%d seed=%d", 400+r.Intn(400), r.Intn(1000)))
+	case 7:
+		if sameNode {
+			emit(fmt.Sprintf("samenode minutes=%d", 1+r.Intn(9)))
+			return
+		}
+		fallthrough
+	default: // 3, 9
+		emit(fmt.Sprintf("withdraw workers=%d credit=%d fee=%d failfirst=%d stagger=%d seed=%d rounds=%d", 3+r.Intn(10), 1000+r.Intn(9000), r.Intn(200), r.Intn(3), []int{0, 4000, 9000, 15000}[r.Intn(4)], r.Intn(1000), 12+r.Intn(12)))
 	}
 }
-
 
 // barrierStore makes two requests of one node overlap deterministically: both read the node record before either
 // refreshes it (the schedule the single-request-per-node assumption of C10 excludes).
@@ -403,12 +460,7 @@ func (c *concComp) sameNode(minutes int) ([]string, string, bool) {
 type concCoreVariant struct{ concComp }
 
 func (v *concCoreVariant) Prefix() string { return "conc" }
-func (v *concCoreVariant) Gen(r *rand.Rand, idx int, emit func(string)) {
-	if idx%8 == 7 {
-		idx++
-	}
-	v.concComp.Gen(r, idx, emit)
-}
+func (v *concCoreVariant) Gen(r *rand.Rand, idx int, emit func(string)) { v.concComp.gen(r, idx, emit, false) }
 
 func init() { components["conc-core"] = func() Component { return &concCoreVariant{} } }
 
